@@ -3,7 +3,7 @@
 
 fn rule_text(prop: &str) -> String {
     if prop == "C13" {
-        "C13: (a) HTTP/2 requests = valid pseudo-headers + 0..8 regular headers from a name/value pool (duplicates, obs-text, leading/trailing OWS, empty values) + with prob. 0.7 spoofing headers (X-Forwarded-For x0..2, Forwarded, X-Real-IP, X-Forwarded-Proto/Port, X-Request-Id x0..2, the listener's correlation header name in 3 case variants, Connection-nominated names), cookies incl. the sticky cookie, optional DATA + trailers (incl. the four spoof names); (b) the same header lists through an HTTP/1.1 frontend (real kawa parser) toward H1 and H2 backends; (c) responses with 0..6 headers incl. Connection / Set-Cookie / the correlation name; contexts: peer v4/v6/none, public v4/v6, http/https, closing, elide/send X-Real-IP, 3 sticky names, 3 correlation header names. non-trivial = the request reached the editor; distinct = distinct op sequence".into()
+        "C13: (a) HTTP/2 requests = valid pseudo-headers + 0..8 regular headers from a name/value pool (duplicates, obs-text, leading/trailing OWS, empty values) + with prob. 0.7 spoofing headers (X-Forwarded-For x0..2, Forwarded, X-Real-IP, X-Forwarded-Proto/Port, X-Request-Id x0..2, the listener's correlation header name in 3 case variants, Connection-nominated names), cookies incl. the sticky cookie, optional DATA + trailers (incl. the four spoof names); (b) the same header lists through an HTTP/1.1 frontend (real kawa parser) toward H1 and H2 backends; (c) responses with 0..6 headers incl. Connection / Set-Cookie / the correlation name; (d) per-frontend response edits (0..4 Append / SetIfAbsent / Set / empty-value delete over 8 names in 3 case variants) through the real apply_response_header_edits; contexts: peer v4/v6/none, public v4/v6, http/https, closing, elide/send X-Real-IP, 3 sticky names, 3 correlation header names. non-trivial = the request reached the editor; distinct = distinct op sequence".into()
     } else {
         "C03: (a) HTTP/2 header lists: valid requests (4 methods + custom tokens, origin/asterisk paths, authority with/without port, 0..6 regular headers, cookies, Content-Length consistent with END_STREAM) and with prob. 0.6 one to three mutations out of 40 shapes (uppercase / non-token name bytes, CR LF NUL CTL DEL in values and cookie crumbs, pseudo-header order / duplicate / missing / unknown / empty / HTAB, method and scheme and path forms incl. SP and '#', connection-specific names, te values, Content-Length sign/space/empty/leading zero/duplicate equal/duplicate differing/overflow, literal host equal/port/mismatch/duplicate, END_STREAM with length, tiny field/byte budgets), followed by DATA frames and optional trailers; (b) HTTP/1.1 byte strings: 1..3 pipelined valid requests (CL / chunked with trailers / no body, origin / absolute / asterisk targets) and with prob. 0.65 a published smuggling shape (CL.TE, TE.CL, TE.TE obfuscations, duplicate CL, signed CL, bare LF, bare CR, obs-fold, NUL/CTL, space before colon, chunk-size tricks, no-length pipeline) or 1..3 random byte edits, cut at random segment boundaries; (c) cross-check of the harness's strict reader against the Lean one on the same strings. non-trivial = the real validator / parser ran; distinct = distinct op sequence".into()
     }
@@ -840,6 +840,23 @@ fn gen_resp_case(rng: &mut Rng) -> Vec<String> {
     vec!["new".into(), format!("resp {} {}", cx.word(), hl(&hs))]
 }
 
+fn gen_respedits_case(rng: &mut Rng) -> Vec<String> {
+    let names = ["Server", "Content-Type", "Strict-Transport-Security", "X-B", "Cache-Control", "Via", "X-Frame-Options", "Set-Cookie"];
+    let mut hs: Vec<Hdr> = vec![];
+    for _ in 0..rng.below(7) {
+        let k = case_variant(rng, rng.pick(&names), true);
+        hs.push((k, rng.pick(&["x", "text/html", "max-age=1", "1.1 b", "DENY"]).as_bytes().to_vec()));
+    }
+    let mut edits = vec![];
+    for _ in 0..rng.below(5) {
+        let k = case_variant(rng, rng.pick(&names), true);
+        let v = if rng.chance(1, 4) { "".to_string() } else { rng.pick(&["edited", "max-age=31536000", "SAMEORIGIN"]).to_string() };
+        let m = *rng.pick(&['a', 'i', 's']);
+        edits.push(format!("{}:{}:{}", hex(&k), hex(v.as_bytes()), m));
+    }
+    vec!["new".into(), format!("respedits {} {}", if edits.is_empty() { "_".into() } else { edits.join(",") }, hl(&hs))]
+}
+
 fn gen_case(prop: &str, rng: &mut Rng, _thorough: bool) -> Vec<String> {
     let r = rng.below(100);
     if prop == "C13" {
@@ -856,8 +873,10 @@ fn gen_case(prop: &str, rng: &mut Rng, _thorough: bool) -> Vec<String> {
             }
             let cuts = gen_cuts(rng, b.len());
             vec!["new".into(), op_h1(&b, &cuts)]
-        } else {
+        } else if r < 94 {
             gen_resp_case(rng)
+        } else {
+            gen_respedits_case(rng)
         }
     } else if r < 50 {
         // a third of the H2 cases go through the real editor too (what is forwarded includes its additions)
